@@ -178,6 +178,9 @@ def check(run, prog: Program):
     array_copy_protocol(Checker(run, prog), prog, "R1")
     from ..structural import overwrite_report
     overwrite_report(Checker(run, prog), prog, "R1")
+    # "... whether the call succeeds or raises": a refused out= call on Dask-backed targets leaves every target untouched
+    from .c17 import dask_out_rule
+    dask_out_rule(Checker(run, prog), prog, "R1")
 
 
 def r2(run, prog):
